@@ -14,7 +14,8 @@ use std::collections::HashSet;
 use std::sync::atomic::{AtomicU64, Ordering};
 use vtokio::sync::{mpsc, oneshot};
 
-pub const ALPHA: &[&str] = &["a", "\u{e9}", "\u{20ac}", "\u{1f600}", "\r", "\n", ";"];
+/// (U+2028 LINE SEPARATOR is an ordinary 3-byte character for LSP: only LF, CR LF and CR end a line)
+pub const ALPHA: &[&str] = &["a", "\u{e9}", "\u{2028}", "\u{1f600}", "\r", "\n", ";"];
 pub const REPLS: &[&str] = &["", "a", "\u{1f600}", "\n", "\r\n"];
 
 fn to_event(c: &Change) -> TextDocumentContentChangeEvent {
